@@ -1,6 +1,7 @@
 package ssax
 
 import (
+	"go/types"
 	"fmt"
 	"go/token"
 	"sort"
@@ -74,15 +75,168 @@ type Explorer struct {
 	StopAtStart bool
 	MaxStates   int
 	Overflow    bool
+
+	untracked map[*ssa.Alloc]bool
+	fieldOK   map[cellKey]bool
+}
+
+// cellKey names a tracked memory cell: a local variable (its Alloc) or one field of a local
+// struct (the struct's Alloc and the field index).
+type cellKey struct {
+	root ssa.Value
+	path string
+}
+
+// cell resolves an address to the cell it denotes, if the explorer tracks it: a local
+// variable not written by closures, or a field of a local struct (value or fresh heap object)
+// that nothing outside the explored function can write.
+func (e *Explorer) cell(addr ssa.Value) (ck cellKey, isBool bool, ok bool) {
+	switch x := addr.(type) {
+	case *ssa.Alloc:
+		if e.untracked[x] {
+			return cellKey{}, false, false
+		}
+		return cellKey{x, ""}, isBoolCell(x), true
+	case *ssa.FieldAddr:
+		base := x.X
+		if r := ResolveLoad(base); r != nil {
+			base = r
+		}
+		root, isAl := base.(*ssa.Alloc)
+		if !isAl || root.Parent() != e.G.Fn {
+			return cellKey{}, false, false
+		}
+		ck = cellKey{root, fmt.Sprintf(".%d", x.Field)}
+		okF, seen := e.fieldOK[ck]
+		if !seen {
+			okF = !fieldEscapes(root, x.Field, e.G.Fn, 0, map[ssa.Value]bool{})
+			if e.fieldOK != nil {
+				e.fieldOK[ck] = okF
+			}
+		}
+		if !okF {
+			return cellKey{}, false, false
+		}
+		pt, isP := x.Type().Underlying().(*types.Pointer)
+		return ck, isP && pt.Elem().String() == "bool", true
+	}
+	return cellKey{}, false, false
+}
+
+// fieldEscapes reports whether field fld of the struct that v points to can be written by
+// anything but plain stores in function home: through a call, a closure, an address taken of
+// the field, a whole-struct store, or a copy of the pointer that cannot be followed.
+func fieldEscapes(v ssa.Value, fld int, home *ssa.Function, depth int, seen map[ssa.Value]bool) bool {
+	if seen[v] {
+		return false
+	}
+	seen[v] = true
+	if depth > 4 {
+		return true
+	}
+	refs := v.Referrers()
+	if refs == nil {
+		return true
+	}
+	for _, r := range *refs {
+		switch x := r.(type) {
+		case *ssa.DebugRef:
+		case *ssa.FieldAddr:
+			if x.X != v || x.Field != fld {
+				continue
+			}
+			if fr := x.Referrers(); fr != nil {
+				for _, q := range *fr {
+					switch y := q.(type) {
+					case *ssa.DebugRef:
+					case *ssa.UnOp:
+						if y.Op != token.MUL {
+							return true
+						}
+					case *ssa.Store:
+						if y.Addr != ssa.Value(x) || y.Parent() != home {
+							return true
+						}
+					default:
+						return true
+					}
+				}
+			}
+		case *ssa.UnOp:
+			if x.Op != token.MUL {
+				return true
+			}
+			// a load: of the struct value (fine) or, when v is a variable holding the pointer, of the pointer
+			if _, isPtr := x.Type().Underlying().(*types.Pointer); isPtr {
+				if fieldEscapes(x, fld, home, depth, seen) {
+					return true
+				}
+			}
+		case *ssa.Store:
+			if x.Addr == v {
+				// the whole struct is overwritten, or (v a pointer variable) a pointer is put in: only the
+				// latter, once, is followed by ResolveLoad; treat an overwritten struct as lost
+				if _, isStruct := x.Val.Type().Underlying().(*types.Struct); isStruct {
+					return true
+				}
+				continue
+			}
+			// the pointer is stored somewhere: a local variable we can follow, or lost
+			al, isAl := x.Addr.(*ssa.Alloc)
+			if !isAl {
+				return true
+			}
+			if fieldEscapes(al, fld, home, depth+1, seen) {
+				return true
+			}
+		case *ssa.MakeClosure:
+			fn, _ := x.Fn.(*ssa.Function)
+			if fn == nil {
+				return true
+			}
+			for k, b := range x.Bindings {
+				if b == v && k < len(fn.FreeVars) {
+					if fieldEscapes(fn.FreeVars[k], fld, nil, depth+1, seen) {
+						return true
+					}
+				}
+			}
+		case ssa.CallInstruction:
+			cc := x.Common()
+			if cc.IsInvoke() {
+				return true
+			}
+			var fn *ssa.Function
+			switch f := cc.Value.(type) {
+			case *ssa.Function:
+				fn = f
+			case *ssa.MakeClosure:
+				fn, _ = f.Fn.(*ssa.Function)
+			}
+			if fn == nil || len(fn.Blocks) == 0 {
+				return true
+			}
+			for k, a := range cc.Args {
+				if a == v {
+					if k >= len(fn.Params) || fieldEscapes(fn.Params[k], fld, nil, depth+1, seen) {
+						return true
+					}
+				}
+			}
+		default:
+			return true
+		}
+	}
+	return false
 }
 
 type pstate struct {
 	vals  map[ssa.Value]Abs
-	cells map[*ssa.Alloc]Abs
+	cells map[cellKey]Abs
 }
 
 func (s *pstate) clone() *pstate {
-	n := &pstate{vals: make(map[ssa.Value]Abs, len(s.vals)), cells: make(map[*ssa.Alloc]Abs, len(s.cells))}
+	n := &pstate{vals: make(map[ssa.Value]Abs, len(s.vals)), cells: make(map[cellKey]Abs, len(s.cells))}
 	for k, v := range s.vals {
 		n.vals[k] = v
 	}
@@ -101,7 +255,7 @@ func (s *pstate) key() string {
 	}
 	for k, v := range s.cells {
 		if v != Unknown {
-			ks = append(ks, fmt.Sprintf("*%s=%d", k.Name(), v))
+			ks = append(ks, fmt.Sprintf("*%s%s=%d", k.root.Name(), k.path, v))
 		}
 	}
 	sort.Strings(ks)
@@ -126,8 +280,8 @@ func (e *Explorer) eval(v ssa.Value, s *pstate) Abs {
 			return e.eval(x.X, s).Not()
 		}
 		if x.Op == token.MUL {
-			if al, ok := x.X.(*ssa.Alloc); ok && isBoolCell(al) {
-				if a, ok := s.cells[al]; ok && a != Unknown {
+			if ck, isBool, ok := e.cell(x.X); ok && isBool {
+				if a, ok := s.cells[ck]; ok && a != Unknown {
 					return a
 				}
 			}
@@ -180,8 +334,8 @@ func (e *Explorer) nilness(v ssa.Value, s *pstate) Abs {
 		return e.nilness(x.X, s)
 	}
 	if u, ok := v.(*ssa.UnOp); ok && u.Op == token.MUL {
-		if al, ok := u.X.(*ssa.Alloc); ok && !isBoolCell(al) {
-			if a, ok := s.cells[al]; ok && a != Unknown {
+		if ck, isBool, ok := e.cell(u.X); ok && !isBool {
+			if a, ok := s.cells[ck]; ok && a != Unknown {
 				return a
 			}
 		}
@@ -209,6 +363,8 @@ func (e *Explorer) Run(start Point) []PathExit {
 	fn := e.G.Fn
 	// cells written by closures are never tracked
 	untracked := map[*ssa.Alloc]bool{}
+	e.untracked = untracked
+	e.fieldOK = map[cellKey]bool{}
 	for _, b := range fn.Blocks {
 		for _, i := range b.Instrs {
 			if mc, ok := i.(*ssa.MakeClosure); ok {
@@ -258,11 +414,11 @@ func (e *Explorer) Run(start Point) []PathExit {
 			}
 			switch x := ins.(type) {
 			case *ssa.Store:
-				if al, ok := x.Addr.(*ssa.Alloc); ok && !untracked[al] {
-					if isBoolCell(al) {
-						s.cells[al] = e.eval(x.Val, s)
+				if ck, isBool, ok := e.cell(x.Addr); ok {
+					if isBool {
+						s.cells[ck] = e.eval(x.Val, s)
 					} else {
-						s.cells[al] = e.nilness(x.Val, s)
+						s.cells[ck] = e.nilness(x.Val, s)
 					}
 				}
 			case *ssa.Return:
@@ -352,7 +508,7 @@ func (e *Explorer) Run(start Point) []PathExit {
 			}
 		}
 	}
-	walk(start.Block, start.Index, &pstate{vals: map[ssa.Value]Abs{}, cells: map[*ssa.Alloc]Abs{}}, nil, true)
+	walk(start.Block, start.Index, &pstate{vals: map[ssa.Value]Abs{}, cells: map[cellKey]Abs{}}, nil, true)
 	return exits
 }
 
@@ -365,8 +521,8 @@ func (e *Explorer) learn(cond ssa.Value, a Abs, s *pstate) {
 			return
 		}
 		if x.Op == token.MUL {
-			if al, ok := x.X.(*ssa.Alloc); ok && isBoolCell(al) {
-				s.cells[al] = a
+			if ck, isBool, ok := e.cell(x.X); ok && isBool {
+				s.cells[ck] = a
 				return
 			}
 		}
@@ -381,8 +537,8 @@ func (e *Explorer) learn(cond ssa.Value, a Abs, s *pstate) {
 				s.vals[r] = n
 			}
 			if u, ok := y.(*ssa.UnOp); ok && u.Op == token.MUL {
-				if al, ok := u.X.(*ssa.Alloc); ok && !isBoolCell(al) {
-					s.cells[al] = n
+				if ck, isBool, ok := e.cell(u.X); ok && !isBool {
+					s.cells[ck] = n
 				}
 			}
 			return
